@@ -330,8 +330,14 @@ def dependency_provenance(ctx: Ctx, rule: str) -> None:
                okd, {k: defs.get(k) for k in ("object_params", "setup_restr", "setup_prefix", "setup_obj_restr", "setup_net_restr")},
                "" if okd else "the restriction used to find or parse the parents of an object changed")
     pcalls = [c for c in calls_in(fn.node) if call_name(c) in ("parse_composite_nodes", "get_and_parse_composite_nodes")]
+    def _arg0(a):
+        # a local naming the restriction string is that string
+        if isinstance(a, ast.Name) and len(defs.get(a.id, [])) == 1 and a.id not in ("setup_restr", "setup_prefix"):
+            return defs[a.id][0]
+        return ast.unparse(a)
+
     okc = len(pcalls) == 2 and all(
-        [ast.unparse(a) for a in c.args] == ["'all..' + setup_restr", f"{nodep}.objects[0]", "setup_prefix"]
+        [_arg0(c.args[0])] + [ast.unparse(a) for a in c.args[1:]] == ["'all..' + setup_restr", f"{nodep}.objects[0]", "setup_prefix"]
         and [(k.arg, ast.unparse(k.value)) for k in c.keywords] == [("params", "setup_dict")] for c in pcalls)
     ctx.record(rule + "c", "PROV", GAPC, "both parsing calls: ('all..' + setup_restr, the node's net, setup_prefix, params=setup_dict)", okc,
                {"calls": [ast.unparse(c)[:120] for c in pcalls]}, "" if okc else "a parent parsing call no longer uses 'all..<get>' with the node's net")
